@@ -5,5 +5,5 @@ CONSTANTS
   InitBal = "5"
   MaxLen = 8
   Scenarios <- MC_Erc20
-  Defects = {"hook_no_checks", "unescrow_receiver_only", "wrapper_false_is_success"}
+  Defects = {"hook_no_checks", "unescrow_receiver_only"}
 CHECK_DEADLOCK FALSE
